@@ -69,6 +69,9 @@ func MapFat(n int) Case {
 		mapping["m_"+v] = "#/components/schemas/S_" + v
 		mapping["n_"+v] = "#/components/schemas/S_" + nm[(i+1)%n]
 	}
+	// keys equal up to letter case (distinct Go types, distinct components)
+	d.Comp("schemas", "CaseTwin", Obj([]string{"t"}, M{"t": Prim("string", "")}))
+	d.Comp("schemas", "caseTwin", Obj([]string{"u"}, M{"u": Prim("integer", "")}))
 	d.Comp("schemas", "Union", M{"oneOf": oneOf, "discriminator": M{"propertyName": "kind", "mapping": mapping}})
 	// shared headers / parameters / responses
 	for i, v := range nm {
